@@ -963,8 +963,38 @@ def c16_producer_directory_outside_arguments(what, case, detail):
     return all(r["file"] is None and r["method"] in ("copy", "link") for r in refs)
 
 
+def spelling_inside_fuzzy_replacement(spec):
+    """some component names in its arguments a produced file `[stageN.]P/F:m` and another reference whose spelling
+    occurs, at word boundaries, inside `F:m`: the fuzzy replacement of the first, `file:fuzzy#<hash of P>#F:m`, is
+    rewritten by the substitution of the second (the references are substituted one after the other, longest first)"""
+    import re
+    for c in spec["comps"]:
+        named = [k for k in range(len(c["refs"])) if in_arguments(c, k)]
+        for k1 in named:
+            r1 = c["refs"][k1]
+            if r1["kind"] != "comp" or not r1["file"]:
+                continue
+            tail = "#" + r1["file"] + ":" + r1["method"]
+            for k2 in named:
+                if k2 != k1 and re.search(r"\b" + re.escape(ref_spelling(spec, c["refs"][k2])) + r"\b", tail):
+                    return True
+    return False
+
+
+def c16_reference_spelling_inside_fuzzy_replacement(what, case, detail):
+    """Accepts only: the FUZZY hash moved when a component was renamed, and exactly one of the two experiments has a
+    component whose arguments name a produced file `P/F:m` together with a reference spelled like the end of that
+    (`F:m` - e.g. the standard output `F:output` of a producer that is itself called F)."""
+    if what not in ("irrelevant-aspect-changes-fuzzy-hash:name", "irrelevant-aspect-changes-fuzzy-hash:producer-name"):
+        return False
+    if not isinstance(case, dict) or case.get("kind") != "pair":
+        return False
+    return spelling_inside_fuzzy_replacement(case["base"]) != spelling_inside_fuzzy_replacement(case["variant"])
+
+
 CLASSIFIERS = {"c16_collision_by_key_word_in_value": c16_collision_by_key_word_in_value,
-               "c16_producer_directory_outside_arguments": c16_producer_directory_outside_arguments}
+               "c16_producer_directory_outside_arguments": c16_producer_directory_outside_arguments,
+               "c16_reference_spelling_inside_fuzzy_replacement": c16_reference_spelling_inside_fuzzy_replacement}
 
 
 def collision_specs(rng):
@@ -2656,15 +2686,15 @@ def run(ctx):
             histories.append(h)
     check_histories(ctx, histories)
     # chains of producers: a missing file at any level (after the parts above, same reason)
-    check_pairs(ctx, corpus_chain_cases() + gen_chain_pairs(rng, 8 if quick else 80, 4))
+    check_pairs(ctx, corpus_chain_cases() + gen_chain_pairs(rng, 8 if quick else 50, 4))
     histories = []
-    for _ in range(8 if quick else 80):
+    for _ in range(8 if quick else 50):
         h = gen_history(rng, chain=True)
         if h is not None:
             histories.append(h)
     check_histories(ctx, histories)
     # sessions: the real Controller (and plain readers) ask for hashes while files are being written
-    check_sessions(ctx, corpus_sessions() + gen_sessions(rng, 20 if quick else 300, 8 if quick else 120))
+    check_sessions(ctx, corpus_sessions() + gen_sessions(rng, 20 if quick else 150, 8 if quick else 60))
 
 
 def replay(ctx, doc):
